@@ -133,3 +133,20 @@ package ugm
 //@   at[user] call ugm.UserTracker.canRunApp#1 after: assume ret <==> ucan(m)
 //@   at[group] call ugm.GroupTracker.canRunApp#1 after: assume ret <==> gcan(m)
 //@   ensures[both] ok ==> ncalls(ugm.UserTracker.canRunApp) == 1 && ucan(m) && (ncalls(ugm.GroupTracker.canRunApp) == 1 ==> gcan(m))
+
+// reload: every named user (group) of every limit entry of a queue is recorded in the new ledger under that queue
+// path with that entry's limit object, entries recorded earlier for the same queue path are kept, and a wild card is
+// recorded as the wild card of that path: the ledger the later clean-up and wild card passes compare against is complete
+//@ func (m *Manager) internalProcessConfig(cur configs.QueueConfig, queuePath string, newUserLimits map[string]map[string]*LimitConfig, newGroupLimits map[string]map[string]*LimitConfig, newUserWildCardLimitsConfig map[string]*LimitConfig, newGroupWildCardLimitsConfig map[string]*LimitConfig, newConfiguredGroups map[string][]string) (err error)
+//@   props C05
+//@   sweep
+//@   mode nopanic=off
+//@   loop 2: each user != "" && user != "*" ==> newUserLimits[queuePath] != nil && newUserLimits[queuePath][user] == limitConfig
+//@   loop 2: each iter(queuePath in newUserLimits) ==> newUserLimits[queuePath] == iter(newUserLimits[queuePath])
+//@   loop 2: each user == "*" ==> newUserWildCardLimitsConfig[queuePath] == limitConfig
+//@   loop 3: each group != "" ==> newGroupLimits[queuePath] != nil && newGroupLimits[queuePath][group] == limitConfig
+//@   loop 3: each iter(queuePath in newGroupLimits) ==> newGroupLimits[queuePath] == iter(newGroupLimits[queuePath])
+//@   loop 3: each group == "*" ==> newGroupWildCardLimitsConfig[queuePath] == limitConfig
+//@   at[usertracker] call ugm.Manager.setUserLimits#1: assert arg0 == m && arg1 == user && arg2 == limitConfig && arg3 == queuePath
+//@   at[grouptracker] call ugm.Manager.setGroupLimits#1: assert arg0 == m && arg1 == group && arg2 == limitConfig && arg3 == queuePath
+//@   at[down] call ugm.Manager.internalProcessConfig#1: assert arg0 == m && arg3 == newUserLimits && arg4 == newGroupLimits && arg5 == newUserWildCardLimitsConfig && arg6 == newGroupWildCardLimitsConfig && arg7 == newConfiguredGroups
